@@ -48,14 +48,22 @@ Proof.
     + rewrite skipn_length. unfold sum_nat. lia.
 Qed.
 
-(* ---- the three models under an arbitrary batching *)
-Lemma tf_feed_ok all d segs : Forall (okL d) segs ->
+(* ---- the three models under an arbitrary batching, empty batches included *)
+Lemma calls_from_None rowsf segs : calls_from None rowsf segs = map rowsf segs.
+Proof.
+  induction segs as [|seg segs IH]; [reflexivity|].
+  cbn [calls_from map]. rewrite IH. destruct seg; reflexivity.
+Qed.
+
+Lemma tf_feed_ok all d segs : Forall (okL d) segs -> lead_n segs = O ->
   tf_feed all d segs = Some (cum 0 (map (total merge_steps) segs)).
 Proof.
-  intros Hok. unfold tf_feed, calls_of. destruct segs as [|seg segs]; [reflexivity|].
+  intros Hok Hl. unfold tf_feed, calls_of. destruct segs as [|seg segs]; [reflexivity|].
+  destruct seg as [|p seg]; [discriminate|].
   inversion Hok as [|? ? Hseg Hsegs]; subst.
-  cbn [map with_header]. destruct (tf_add_first all d seg Hseg) as (s' & E1 & Hs' & Hc).
-  destruct (batch_rows all seg) as [r0 r1]. cbn [fst snd] in E1. cbn [feed]. rewrite E1.
+  cbn [calls_from]. rewrite calls_from_None.
+  destruct (tf_add_first all d (p :: seg) Hseg) as (s' & E1 & Hs' & Hc).
+  cbn [feed]. rewrite E1.
   rewrite (feed_cum tf_add (batch_rows all) (total merge_steps) (started_at d) (okL d)
              (fun s x Hs Hx => tf_add_next all d x s Hx Hs) segs s' Hs' Hsegs).
   cbn [cum map]. rewrite Hc. reflexivity.
@@ -64,44 +72,71 @@ Qed.
 Lemma sa_feed_ok all d segs : Forall (okL d) segs ->
   sa_feed all d segs = Some (cum 0 (map (total skip_steps) segs)).
 Proof.
-  intros Hok. unfold sa_feed, calls_of. destruct segs as [|seg segs]; [reflexivity|].
-  inversion Hok as [|? ? Hseg Hsegs]; subst.
-  cbn [map with_header]. destruct (sa_add_first all d seg Hseg) as (s' & E1 & Hs' & Hc).
-  destruct (batch_rows all seg) as [r0 r1]. cbn [fst snd] in E1. cbn [feed]. rewrite E1.
-  rewrite (feed_cum sa_add (batch_rows all) (total skip_steps) (started_at d) (okL d)
-             (fun s x Hs Hx => sa_add_next all d x s Hx Hs) segs s' Hs' Hsegs).
-  cbn [cum map]. rewrite Hc. reflexivity.
+  unfold sa_feed, calls_of. induction segs as [|seg segs IH]; intros Hok; [reflexivity|].
+  inversion Hok as [|? ? Hseg Hsegs]; subst. destruct seg as [|p seg].
+  - cbn [calls_from]. change (batch_rows all []) with (@nil row, @nil row). cbn [feed].
+    change (sa_add ist0 ([], [])) with (Some ist0). cbv beta iota. rewrite (IH Hsegs). reflexivity.
+  - cbn [calls_from]. rewrite calls_from_None.
+    destruct (sa_add_first all d (p :: seg) Hseg) as (s' & E1 & Hs' & Hc).
+    cbn [feed]. rewrite E1.
+    rewrite (feed_cum sa_add (batch_rows all) (total skip_steps) (started_at d) (okL d)
+               (fun s x Hs Hx => sa_add_next all d x s Hx Hs) segs s' Hs' Hsegs).
+    cbn [cum map]. rewrite Hc. reflexivity.
 Qed.
 
 Definition pick (side : bool) (c : list row * list row) : list row := if side then snd c else fst c.
 
+(* what LeaderFollower will have counted once the heading row has arrived: before its first
+   call the object owes one row (the heading), after an empty first call the debt shows as -1 *)
+Definition eff (s : ist) : Z := i_cnt s + (if i_started s then 0 else -1).
+
+Lemma lf_feed_gen (rowsf : list fpair -> list row * list row) (q : list fpair -> Z)
+      (ok : list fpair -> Prop) side h :
+  rowsf [] = ([], []) -> q [] = 0 ->
+  (forall seg, ok seg -> Z.of_nat (length (pick side (rowsf seg))) = q seg) ->
+  forall segs s, Forall ok segs -> eff s = -1 ->
+  feed (fun s c => Some (lf_add s c)) s (map (pick side) (calls_from (Some h) rowsf segs))
+  = Some (repeat (-1) (lead_n segs) ++ skipn (lead_n segs) (cum 0 (map q segs))).
+Proof.
+  intros Hnil Hq0 Hlen. induction segs as [|seg segs IH]; intros s Hok He; [reflexivity|].
+  inversion Hok as [|? ? Hseg Hsegs]; subst. destruct seg as [|p seg].
+  - cbn [calls_from map lead_n]. rewrite Hnil.
+    assert (Hp : pick side (@nil row, @nil row) = []) by (destruct side; reflexivity).
+    rewrite Hp. cbn [feed].
+    assert (He' : eff (lf_add s []) = -1 /\ i_cnt (lf_add s []) = -1).
+    { unfold eff, lf_add in *. cbn [i_cnt i_started length]. destruct (i_started s); lia. }
+    rewrite (IH _ Hsegs (proj1 He')), (proj2 He').
+    cbn [repeat app cum skipn]. rewrite Hq0. reflexivity.
+  - cbn [calls_from lead_n map repeat app skipn]. rewrite calls_from_None, map_map.
+    assert (Hp : pick side (h :: fst (rowsf (p :: seg)), h :: snd (rowsf (p :: seg)))
+                 = h :: pick side (rowsf (p :: seg))) by (destruct side; reflexivity).
+    rewrite Hp. cbn [feed].
+    set (s1 := lf_add s _).
+    assert (Hstep : forall (s : ist) (x : list fpair), i_started s = true -> ok x ->
+              exists s', Some (lf_add s (pick side (rowsf x))) = Some s'
+                         /\ i_started s' = true /\ i_cnt s' = i_cnt s + q x).
+    { intros s0 x Hs Hx. eexists. split; [reflexivity|]. split; [reflexivity|].
+      unfold lf_add. cbn [i_cnt]. rewrite Hs, (Hlen x Hx). reflexivity. }
+    rewrite (feed_cum (fun s c => Some (lf_add s c)) (fun x => pick side (rowsf x)) q
+               (fun s => i_started s = true) ok Hstep segs s1 eq_refl Hsegs).
+    assert (Hc : i_cnt s1 = 0 + q (p :: seg)).
+    { unfold s1, lf_add, eff in *. cbn [i_cnt length]. rewrite <- (Hlen _ Hseg).
+      destruct (i_started s); lia. }
+    cbn [cum map]. rewrite Hc. reflexivity.
+Qed.
+
 Lemma lf_feed_ok side all d segs : Forall (okL d) segs ->
   lf_feed side all d segs
-  = Some (cum 0 (map (total (if side then (fun a b => presented b a) else presented)) segs)).
+  = Some (repeat (-1) (lead_n segs)
+          ++ skipn (lead_n segs)
+               (cum 0 (map (total (if side then (fun a b => presented b a) else presented)) segs))).
 Proof.
-  intros Hok. unfold lf_feed, calls_of. destruct segs as [|seg segs]; [reflexivity|].
-  inversion Hok as [|? ? Hseg Hsegs]; subst.
-  cbn [map with_header].
-  destruct (batch_lengths all d seg (proj1 Hseg)) as [L0 L1].
-  destruct (batch_rows all seg) as [r0 r1] eqn:Eb. cbn [fst snd] in L0, L1. cbn [map feed].
-  rewrite map_map.
-  set (q := total (if side then (fun a b => presented b a) else presented)).
-  assert (Hstep : forall (s : ist) (x : list fpair), i_started s = true -> okL d x ->
-            exists s', Some (lf_add s (pick side (batch_rows all x))) = Some s'
-                       /\ i_started s' = true /\ i_cnt s' = i_cnt s + q x).
-  { intros s x Hs Hx. eexists. split; [reflexivity|]. split; [reflexivity|].
-    unfold lf_add. cbn [i_cnt]. rewrite Hs.
-    destruct (batch_lengths all d x (proj1 Hx)) as [X0 X1].
-    unfold q, pick. destruct side; [rewrite X1|rewrite X0]; reflexivity. }
-  set (s1 := lf_add ist0 _).
-  change (map (fun x : list fpair => if side then snd (batch_rows all x) else fst (batch_rows all x)) segs)
-    with (map (fun x => pick side (batch_rows all x)) segs).
-  rewrite (feed_cum (fun s c => Some (lf_add s c)) (fun x => pick side (batch_rows all x)) q
-             (fun s => i_started s = true) (okL d) Hstep segs s1 eq_refl Hsegs).
-  assert (Hc : i_cnt s1 = 0 + q seg).
-  { unfold s1, lf_add. cbn [i_cnt ist0 i_started]. unfold q.
-    destruct side; cbn [fst snd length]; [rewrite <- L1|rewrite <- L0]; lia. }
-  cbn [cum map]. rewrite Hc. reflexivity.
+  intros Hok. unfold lf_feed, calls_of.
+  change (map (fun c : list row * list row => if side then snd c else fst c))
+    with (map (pick side)).
+  apply (lf_feed_gen (batch_rows all) _ (okL d) side (header d)); try reflexivity; [|exact Hok].
+  intros seg Hseg. destruct (batch_lengths all d seg (proj1 Hseg)) as [X0 X1].
+  unfold pick. destruct side; assumption.
 Qed.
 
 (* ---- final totals do not depend on the batching *)
@@ -137,11 +172,61 @@ Definition final (r : option (list Z)) : option Z :=
 Lemma final_cum q segs : final (Some (cum 0 (map (total q) segs))) = Some (total q (concat segs)).
 Proof. cbn [final]. rewrite last_cum, total_concat. f_equal; lia. Qed.
 
+Lemma last_app_ne {A} (l1 l2 : list A) d : l2 <> [] -> last (l1 ++ l2) d = last l2 d.
+Proof.
+  intros Hne. induction l1 as [|a l1 IH]; [reflexivity|].
+  cbn [app]. destruct (l1 ++ l2) as [|b r] eqn:E.
+  - destruct l1; [cbn in E; contradiction|discriminate].
+  - cbn [last]. cbn [last] in IH. exact IH.
+Qed.
+
+Lemma last_skipn {A} : forall k (l : list A) d, (k < length l)%nat -> last (skipn k l) d = last l d.
+Proof.
+  induction k as [|k IH]; intros l d Hk; [reflexivity|].
+  destruct l as [|a l]; [cbn in Hk; lia|]. cbn [skipn]. cbn [length] in Hk.
+  rewrite IH by lia. destruct l; [cbn in Hk; lia|reflexivity].
+Qed.
+
+Lemma cum_length : forall l acc, length (cum acc l) = length l.
+Proof. induction l as [|x l IH]; intros acc; [reflexivity|]. cbn [cum length]. rewrite IH. reflexivity. Qed.
+
+Lemma lead_n_le segs : (lead_n segs <= length segs)%nat.
+Proof. induction segs as [|[|p seg] segs IH]; cbn [lead_n length]; lia. Qed.
+
+Lemma lead_n_lt segs : concat segs <> [] -> (lead_n segs < length segs)%nat.
+Proof.
+  induction segs as [|[|p seg] segs IH]; intros H; cbn [lead_n length]; [contradiction| |lia].
+  cbn [concat app] in H. specialize (IH H). lia.
+Qed.
+
+Lemma concat_drop_lead segs : concat (drop_lead segs) = concat segs.
+Proof. induction segs as [|[|p seg] segs IH]; cbn [drop_lead concat app]; auto. Qed.
+
+Lemma lead_n_drop_lead segs : lead_n (drop_lead segs) = O.
+Proof. induction segs as [|[|p seg] segs IH]; cbn [drop_lead lead_n]; auto. Qed.
+
+Lemma final_masked q k segs : (k < length segs)%nat ->
+  final (Some (repeat (-1) k ++ skipn k (cum 0 (map (total q) segs)))) = Some (total q (concat segs)).
+Proof.
+  intros Hk. cbn [final].
+  assert (Hlen : (k < length (cum 0 (map (total q) segs)))%nat) by (rewrite cum_length, map_length; exact Hk).
+  rewrite last_app_ne.
+  - rewrite (last_skipn _ _ _ Hlen), last_cum, total_concat. f_equal; lia.
+  - intros E. apply (f_equal (@length Z)) in E. rewrite skipn_length in E. cbn [length] in E. lia.
+Qed.
+
 (* ---- statements used by Properties/C19.v *)
 Lemma two_finger_thm all segs :
-  wf_fs (concat segs) = true ->
+  wf_fs (concat segs) = true -> lead_n segs = O ->
   tf_feed all (depth_of (concat segs)) segs = Some (cum 0 (map (total merge_steps) segs)).
-Proof. intros H. apply tf_feed_ok, okL_concat, wf_fs_ok, H. Qed.
+Proof. intros H Hl. apply tf_feed_ok; [apply okL_concat, wf_fs_ok, H|exact Hl]. Qed.
+
+Lemma two_finger_empty_first_refuted :
+  exists all d segs, wf_fs (concat segs) = true /\ concat segs <> [] /\ tf_feed all d segs = None.
+Proof.
+  exists [[]], O, [[]; [ {| f_id := []; f_d := 0; f_a := [(1, 1)]; f_b := [(1, 1)] |} ]].
+  split; [reflexivity|]. split; [discriminate|reflexivity].
+Qed.
 
 Lemma skip_ahead_thm all segs :
   wf_fs (concat segs) = true ->
@@ -150,9 +235,11 @@ Proof. intros H. apply sa_feed_ok, okL_concat, wf_fs_ok, H. Qed.
 
 Lemma leader_follower_thm all segs :
   wf_fs (concat segs) = true ->
-  lf_feed false all (depth_of (concat segs)) segs = Some (cum 0 (map (total presented) segs))
+  lf_feed false all (depth_of (concat segs)) segs
+  = Some (repeat (-1) (lead_n segs) ++ skipn (lead_n segs) (cum 0 (map (total presented) segs)))
   /\ lf_feed true all (depth_of (concat segs)) segs
-     = Some (cum 0 (map (total (fun a b => presented b a)) segs)).
+     = Some (repeat (-1) (lead_n segs)
+             ++ skipn (lead_n segs) (cum 0 (map (total (fun a b => presented b a)) segs))).
 Proof.
   intros H. pose proof (okL_concat _ _ (wf_fs_ok _ H)) as Hok.
   split; [exact (lf_feed_ok false all _ segs Hok)|exact (lf_feed_ok true all _ segs Hok)].
@@ -160,14 +247,17 @@ Qed.
 
 Lemma batching_thm all fs segs :
   wf_fs fs = true -> concat segs = fs ->
-  final (tf_feed all (depth_of fs) segs) = Some (total merge_steps fs)
+  (lead_n segs = O -> final (tf_feed all (depth_of fs) segs) = Some (total merge_steps fs))
   /\ final (sa_feed all (depth_of fs) segs) = Some (total skip_steps fs)
-  /\ final (lf_feed false all (depth_of fs) segs) = Some (total presented fs)
-  /\ final (lf_feed true all (depth_of fs) segs) = Some (total (fun a b => presented b a) fs).
+  /\ (fs <> [] ->
+      final (lf_feed false all (depth_of fs) segs) = Some (total presented fs)
+      /\ final (lf_feed true all (depth_of fs) segs) = Some (total (fun a b => presented b a) fs)).
 Proof.
   intros H E. subst fs. destruct (leader_follower_thm all segs H) as [L0 L1].
-  rewrite (two_finger_thm all segs H), (skip_ahead_thm all segs H), L0, L1, !final_cum.
-  repeat split.
+  split; [intros Hl; rewrite (two_finger_thm all segs H Hl); apply final_cum|].
+  split; [rewrite (skip_ahead_thm all segs H); apply final_cum|].
+  intros Hne. pose proof (lead_n_lt segs Hne) as Hk.
+  rewrite L0, L1. split; apply final_masked; exact Hk.
 Qed.
 
 (* ---- leader-follower style intersections *)
@@ -190,47 +280,71 @@ Proof.
 Qed.
 
 Lemma lfs_feed_ok side all d segs :
-  lfs_feed side all d segs = Some (cum 0 (map (total led) segs)).
+  lfs_feed side all d segs
+  = Some (repeat (-1) (lead_n segs) ++ skipn (lead_n segs) (cum 0 (map (total led) segs))).
 Proof.
-  unfold lfs_feed, lfs_calls_of. destruct segs as [|seg segs]; [reflexivity|].
-  cbn [map with_header].
-  destruct (lfs_batch_lengths all seg) as [L0 L1].
-  destruct (lfs_batch_rows all seg) as [r0 r1] eqn:Eb. cbn [fst snd] in L0, L1. cbn [map feed].
-  rewrite map_map.
-  assert (Hstep : forall (s : ist) (x : list fpair), i_started s = true -> True ->
-            exists s', Some (lf_add s (pick side (lfs_batch_rows all x))) = Some s'
-                       /\ i_started s' = true /\ i_cnt s' = i_cnt s + total led x).
-  { intros s x Hs _. eexists. split; [reflexivity|]. split; [reflexivity|].
-    unfold lf_add. cbn [i_cnt]. rewrite Hs.
-    destruct (lfs_batch_lengths all x) as [X0 X1].
-    unfold pick. destruct side; [rewrite X1|rewrite X0]; reflexivity. }
-  set (s1 := lf_add ist0 _).
-  change (map (fun x : list fpair => if side then snd (lfs_batch_rows all x) else fst (lfs_batch_rows all x)) segs)
-    with (map (fun x => pick side (lfs_batch_rows all x)) segs).
-  assert (Hall : Forall (fun _ : list fpair => True) segs) by (apply Forall_forall; intros; exact I).
-  rewrite (feed_cum (fun s c => Some (lf_add s c)) (fun x => pick side (lfs_batch_rows all x)) (total led)
-             (fun s => i_started s = true) (fun _ => True) Hstep segs s1 eq_refl Hall).
-  assert (Hc : i_cnt s1 = 0 + total led seg).
-  { unfold s1, lf_add. cbn [i_cnt ist0 i_started].
-    destruct side; cbn [fst snd length]; [rewrite <- L1|rewrite <- L0]; lia. }
-  cbn [cum map]. rewrite Hc. reflexivity.
+  unfold lfs_feed, lfs_calls_of.
+  change (map (fun c : list row * list row => if side then snd c else fst c))
+    with (map (pick side)).
+  apply (lf_feed_gen (lfs_batch_rows all) _ (fun _ => True) side (header d)); try reflexivity.
+  - intros seg _. destruct (lfs_batch_lengths all seg) as [X0 X1].
+    unfold pick. destruct side; assumption.
+  - apply Forall_forall. intros; exact I.
 Qed.
 
-Lemma lsched_model_spec fs lens : lsched_model fs lens = lsched_spec fs lens.
-Proof. unfold lsched_model, lsched_spec. rewrite !lfs_feed_ok. reflexivity. Qed.
+(* ---- the oracle on count lists *)
+Lemma lead_eqb_refl k l : lead_eqb k (Vl VZ l) l = true.
+Proof.
+  unfold lead_eqb, Vl. rewrite map_length, Nat.eqb_refl. cbn [andb].
+  rewrite skipn_map. apply V_eqb_refl.
+Qed.
+
+Lemma lead_eqb_masked k l : (k <= length l)%nat ->
+  lead_eqb k (Vl VZ (repeat (-1) k ++ skipn k l)) l = true.
+Proof.
+  intros Hk. unfold lead_eqb, Vl.
+  rewrite map_length, app_length, repeat_length, skipn_length.
+  replace (k + (length l - k))%nat with (length l) by lia. rewrite Nat.eqb_refl. cbn [andb].
+  rewrite map_app, skipn_app, map_length, repeat_length, Nat.sub_diag.
+  rewrite skipn_all2 by (rewrite map_length, repeat_length; lia).
+  cbn [skipn app]. apply V_eqb_refl.
+Qed.
+
+Lemma forall2b_map {A B} (f : A -> B -> bool) (g : A -> B) l :
+  (forall x, In x l -> f x (g x) = true) -> forall2b f l (map g l) = true.
+Proof.
+  induction l as [|x l IH]; intros H; [reflexivity|].
+  cbn [map forall2b]. rewrite (H x (or_introl eq_refl)), IH; [reflexivity|].
+  intros y Hy. apply H. right. exact Hy.
+Qed.
+
+Lemma lsched_model_holds fs lens : lsched_holds fs lens (lsched_model fs lens) = true.
+Proof.
+  unfold lsched_holds, lsched_model. rewrite !lfs_feed_ok. cbn [Vres].
+  assert (Hk : forall q, (lead_n (split_by lens fs) <= length (cum 0 (map (total q) (split_by lens fs))))%nat)
+    by (intros q; rewrite cum_length, map_length; apply lead_n_le).
+  rewrite !(lead_eqb_masked _ _ (Hk led)). reflexivity.
+Qed.
 
 (* ---- the model's observation satisfies the oracle *)
-Lemma sched_model_spec fs lens :
-  wf_fs fs = true -> wf_sched (length fs) lens = true -> sched_model fs lens = sched_spec fs lens.
+Lemma sched_model_holds fs lens :
+  wf_fs fs = true -> wf_sched (length fs) lens = true -> sched_holds fs lens (sched_model fs lens) = true.
 Proof.
-  intros Hfs Hl. unfold wf_sched in Hl. apply andb_true_iff in Hl. destruct Hl as [_ Hsum].
-  apply Nat.eqb_eq in Hsum. pose proof (split_by_concat lens fs Hsum) as Hc.
-  unfold sched_model, sched_spec.
-  assert (Hw : wf_fs (concat (split_by lens fs)) = true) by (rewrite Hc; exact Hfs).
-  pose proof (two_finger_thm (map f_id fs) _ Hw) as T.
+  intros Hfs Hl. unfold wf_sched in Hl.
+  apply Nat.eqb_eq in Hl. pose proof (split_by_concat lens fs Hl) as Hc.
+  unfold sched_model, sched_holds.
+  set (segs := split_by lens fs) in *.
+  assert (Hw : wf_fs (concat segs) = true) by (rewrite Hc; exact Hfs).
+  assert (Hw' : wf_fs (concat (drop_lead segs)) = true) by (rewrite concat_drop_lead; exact Hw).
+  pose proof (two_finger_thm (map f_id fs) _ Hw' (lead_n_drop_lead segs)) as T.
   pose proof (skip_ahead_thm (map f_id fs) _ Hw) as S.
   destruct (leader_follower_thm (map f_id fs) _ Hw) as [L0 L1].
-  rewrite Hc in T, S, L0, L1. rewrite T, S, L0, L1. reflexivity.
+  rewrite concat_drop_lead in T. rewrite Hc in T, S, L0, L1. rewrite T, S, L0, L1. cbn [Vres].
+  rewrite V_eqb_refl, lead_eqb_refl. cbn [andb].
+  assert (Hk : forall q, (lead_n segs <= length (cum 0 (map (total q) segs)))%nat)
+    by (intros q; rewrite cum_length, map_length; apply lead_n_le).
+  rewrite (lead_eqb_masked _ _ (Hk presented)), (lead_eqb_masked _ _ (Hk (fun a b => presented b a))).
+  reflexivity.
 Qed.
 
 Lemma c19_model_holds c : c19_wf c = true -> holds c19_checker c (model c19_checker c) = true.
@@ -238,8 +352,8 @@ Proof.
   destruct c as [fs scheds|t u depth radix lat|fs scheds].
   - cbn [c19_wf holds model c19_checker c19_model c19_holds]. intros H.
     apply andb_true_iff in H. destruct H as [Hfs Hs].
-    apply V_eqb_spec. f_equal. apply map_ext_in. intros lens Hin.
-    rewrite forallb_forall in Hs. apply sched_model_spec; [exact Hfs|exact (Hs lens Hin)].
+    apply forall2b_map. intros lens Hin.
+    rewrite forallb_forall in Hs. apply sched_model_holds; [exact Hfs|exact (Hs lens Hin)].
   - cbn [c19_wf holds model c19_checker c19_model c19_holds]. intros H.
     apply andb_true_iff in H. destruct H as [H Hrad].
     apply andb_true_iff in H. destruct H as [Hd Hsh].
@@ -251,5 +365,5 @@ Proof.
     + rewrite swaps_ref_N_eq. destruct (swaps_ref_N_total depth radix t Hr Hd) as [v Ev].
       rewrite Ev. cbn [Vo]. rewrite !Z.eqb_refl. reflexivity.
   - cbn [c19_wf holds model c19_checker c19_model c19_holds]. intros _.
-    apply V_eqb_spec. f_equal. apply map_ext. intros lens. apply lsched_model_spec.
+    apply forall2b_map. intros lens _. apply lsched_model_holds.
 Qed.
